@@ -3,8 +3,9 @@
 usage: seed_import.py CXX K   (reads /tmp/seed/out/CXX/K)"""
 import json, os, shutil, subprocess, sys, tempfile
 pid, k = sys.argv[1], sys.argv[2]
-src = f"/tmp/seed/out/{pid}/{k}"
-dst = f"/verif/seeded/{pid}-{k}"
+rnd = int(os.environ.get("SEED_ROUND", "1"))
+src = f"/tmp/seed/out{'' if rnd == 1 else rnd}/{pid}/{k}"
+dst = f"/verif/seeded/{pid}-{int(k) + 3 * (rnd - 1)}"
 if not os.path.exists(src + "/patch.diff"):
     sys.exit(f"{src}: no patch")
 wt = tempfile.mkdtemp(prefix="seedverify-")
@@ -26,7 +27,7 @@ try:
     d = run(demo, env=env)
     demo_fails = d.returncode != 0
     ok = clean_ok and applies and suite_ok and demo_fails
-    print(f"{pid}-{k}: clean_demo_ok={clean_ok} applies={applies} suite='{suite}' demo_fails_with_patch={demo_fails} => {'KEEP' if ok else 'REJECT'}")
+    print(f"{os.path.basename(dst)}: clean_demo_ok={clean_ok} applies={applies} suite='{suite}' demo_fails_with_patch={demo_fails} => {'KEEP' if ok else 'REJECT'}")
     if ok:
         os.makedirs(dst, exist_ok=True)
         shutil.copy(src + "/patch.diff", dst)
@@ -34,7 +35,7 @@ try:
         notes = open(src + "/notes.md").read() if os.path.exists(src + "/notes.md") else ""
         open(dst + "/notes.md", "w").write(notes)
         files = [l[6:].strip() for l in open(src + "/patch.diff") if l.startswith("+++ b/")]
-        meta = {"property": pid, "seed": f"{pid}-{k}", "files_changed": files,
+        meta = {"property": pid, "seed": os.path.basename(dst), "round": rnd, "files_changed": files,
                 "needs_to_manifest": notes[:1500],
                 "verified": {"base_commit": run("git -C /repo rev-parse --short HEAD").stdout.strip(),
                              "demo_on_clean_tree": "exit 0", "suite_with_patch": suite,
